@@ -54,7 +54,7 @@ Prog(e) ==
               /\ Kept(T, cur, x.base, x.toks) =>
                    Chk(x.href = Rel(Front(File(T, cur)), File(T, Target(cur, x.base, x.toks))), "C35", "link-not-rewritten-to-the-relative-path-of-the-linked-boards-file",
                        <<cur, x.toks, x.href, Rel(Front(File(T, cur)), File(T, Target(cur, x.base, x.toks)))>>)
-              /\ ~Kept(T, cur, x.base, x.toks) => Chk(x.href = <<>>, "C35", "dropped-link-present-in-the-output", <<cur, x.toks, x.href>>)
+              /\ ~Kept(T, cur, x.base, x.toks) => Chk(x.href = <<>>, "C35", IF Target(cur, x.base, x.toks) = cur THEN "link-to-the-board-itself-present-in-the-output" ELSE "dropped-link-present-in-the-output", <<cur, x.toks, x.href>>)
 
 Init == l = 1 /\ tid = 0
 Next ==
